@@ -1494,10 +1494,15 @@ def search_panic_sweep(drv, rng, budget):
             f = SEARCHERS.get(name)
             if f is None:
                 continue
-            try:
-                f(drv, rng, max(40, budget // 8))
-            except Exception:
-                pass
+            # each searcher stops at ITS first mismatch: several short runs with different generator seeds, so that a change
+            # which makes many programs misbehave does not hide the ones that panic
+            for rep in range(6):
+                try:
+                    f(drv, random.Random(rng.random()), max(8, budget // 48))
+                except Exception:
+                    pass
+                if drv.panic_log:
+                    break
             if drv.panic_log:
                 op, resp = drv.panic_log[0]
                 shown = [bytes.fromhex(x).decode("utf-8", "replace") if x and len(x) % 2 == 0 and all(c in "0123456789abcdef" for c in x) else x for x in op[1:]]
